@@ -319,7 +319,7 @@ func main() {
 	pool := append(append([]named{}, vs...), regressions()...)
 	ns := 500
 	if thorough {
-		ns = 60000
+		ns = 30000
 	}
 	for i := 0; i < ns; i++ {
 		a, b := pool[rng.Intn(len(pool))].c, pool[rng.Intn(len(pool))].c
@@ -351,7 +351,7 @@ func main() {
 	// 6. random strings over the tag alphabet with small arguments
 	nr := 900
 	if thorough {
-		nr = 100000
+		nr = 50000
 	}
 	for i := 0; i < nr; i++ {
 		n := 4 + rng.Intn(36)
